@@ -576,6 +576,33 @@ fn cmd_markdown() -> (u64, Vec<String>) {
     (n, bad)
 }
 
+fn cmd_cram_probe() -> (u64, Vec<String>) {
+    use scrut::parsers::cram::CramParser;
+    use scrut::parsers::parser::Parser;
+    let docs = [
+        "Title\n  $ echo a\n  a\n  $ echo b\n  b\n",
+        "T1\nT2\n  $ echo a\n  > more\n  a\n  [3]\n",
+        "  $ echo a\n# comment\n  a\n\n  b\n",
+        "T\n  $ a\n  # not a comment\n  [1]\n  [2]\n",
+        "T\n  out\n",
+        "T\n  $ a\nU\n  $ b\n",
+        "T\n  > x\n",
+        "T\n  $ a\n  $ b\n\n  c\n",
+    ];
+    let mut out = vec![];
+    for d in docs {
+        let maker = std::sync::Arc::new(ExpectationMaker::new(RuleRegistry::default()));
+        let r = CramParser::new(maker, 2).parse(d);
+        let txt = match r {
+            Ok((_, tcs)) => tcs.iter().map(|t| format!("[title={:?} expr={:?} exps={:?} exit={:?} line={} cfg={:?}/{:?}]", t.title, t.shell_expression,
+                t.expectations.iter().map(|e| e.original_string()).collect::<Vec<_>>(), t.exit_code, t.line_number, t.config.output_stream, t.config.keep_crlf)).collect::<Vec<_>>().join(" "),
+            Err(e) => format!("ERR {e}"),
+        };
+        out.push(format!("{{\"doc\":{},\"result\":{}}}", jstr(d), jstr(&txt)));
+    }
+    (docs.len() as u64, out)
+}
+
 fn main() {
     let args: Vec<String> = std::env::args().collect();
     let cmd = args.get(1).map(|s| s.as_str()).unwrap_or("");
@@ -601,6 +628,7 @@ fn main() {
         "escape" => cmd_escape(args.get(2).map(|s| s.as_str()).unwrap_or("both"), args.get(3).and_then(|s| s.parse().ok()).unwrap_or(3)),
         "config" => cmd_config(),
         "markdown" => cmd_markdown(),
+        "cram-probe" => cmd_cram_probe(),
         "validate" => cmd_validate(),
         _ => {
             eprintln!("usage: verif-replay axioms|diff|escape|config|validate");
